@@ -4,6 +4,14 @@ Tie C only (no translator): the generic model `Core/Ecc.lean` is run at Float (C
 compared with `EventCharacteristics(...).eccentricity(...)` of the tree under test on the same inputs.
 The oracle (`search`) checks the PROPERTY on the real code: an independent complex-arithmetic reference
 (no arctan2/cos/sin) and the metamorphic relations (rotate, reflect, scale, permute, lattice = nodes).
+
+Besides single calls on fresh objects, both halves run SESSIONS: one long-lived `EventCharacteristics` object
+serves a history  compute -> mutate the held data in place (Lattice3D through its public API; the particle
+list through list operations and Particle setters) -> compute again,  with `set_event_data` switching between
+particle and lattice input and a different (n, m, weight_quantity) per call.  After every call the result is
+compared with the model / the formula on the CURRENT content of the held data and with a freshly constructed
+object on the same data.  A failure that a fresh object does not show is reported as `instance-reuse-...` with
+the whole (shrunk) history as replay.
 """
 import cmath
 import json
@@ -252,6 +260,289 @@ def same(real, model, cond, exact_zero=False):
     return cclose(real[1], model[1], TOL * max(1.0, cond))
 
 
+# ------------------------------------------------------------------ sessions: one long-lived object, a history of ops
+P_ATTRS = ["x", "y", "E", "charge", "baryon_number", "strangeness"]
+
+
+def _build(spec):
+    """spec -> the live data object handed to EventCharacteristics (held by reference there)"""
+    if spec["kind"] == "lattice":
+        return _lattice(spec["extent"], spec["shape"], spec["grid"])
+    pl = _particles(spec["particles"])
+    if spec.get("container") == "ndarray":
+        arr = np.empty(len(pl), dtype=object)
+        for i, p in enumerate(pl):
+            arr[i] = p
+        return arr
+    return pl
+
+
+def _is_lattice(data):
+    from sparkx.Lattice3D import Lattice3D
+    return isinstance(data, Lattice3D)
+
+
+def _content(data):
+    """CURRENT content of the live data as plain numbers: ('l', xs, ys, nz, grid) | ('p', seen)"""
+    if _is_lattice(data):
+        return ("l", [float(v) for v in data.x_values_], [float(v) for v in data.y_values_],
+                int(data.grid_.shape[2]), np.array(data.grid_, dtype=float).tolist())
+    return ("p", _seen(list(data)))
+
+
+def _content_pts(content, wq):
+    if content[0] == "l":
+        _, xs, ys, nz, g = content
+        return [(g[i][j][l], xs[i], ys[j]) for i in range(len(xs)) for j in range(len(ys)) for l in range(nz)]
+    return [(1.0 if wq == "number" else p[WIDX.get(wq, 0)], p[4], p[5]) for p in content[1]]
+
+
+def _pattern_grid(shape, co):
+    a, b, c, d = co
+    return np.array([[[a + b * i + c * j + d * l for l in range(shape[2])] for j in range(shape[1])]
+                     for i in range(shape[0])], dtype=float)
+
+
+def _apply(data, op):
+    """apply one in-place mutation to the live data through its public API.  Ops that do not fit the kind of data
+    currently held (or its size) are no-ops, so every subsequence of a history is a valid history.
+    Returns True when the op was applicable."""
+    from sparkx.Lattice3D import Lattice3D
+    name = op["op"]
+    try:
+        if _is_lattice(data):
+            lat = data
+            sh = lat.grid_.shape
+            fx = lambda u, lo, hi: lo + u * (hi - lo)
+            if name == "reset":
+                lat.reset()
+            elif name == "set_value_by_index":
+                lat.set_value_by_index(op["i"] % sh[0], op["j"] % sh[1], op["k"] % sh[2], op["v"])
+            elif name in ("set_value_nearest_neighbor", "set_value"):
+                getattr(lat, name)(fx(op["u"][0], lat.x_min_, lat.x_max_), fx(op["u"][1], lat.y_min_, lat.y_max_),
+                                   fx(op["u"][2], lat.z_min_, lat.z_max_), op["v"])
+            elif name == "rescale":
+                lat.rescale(op["f"])
+            elif name == "add_particle_data":
+                if None in (lat.spacing_x_, lat.spacing_y_, lat.spacing_z_):
+                    return False
+                from sparkx.Particle import Particle
+                q = Particle()
+                q.x, q.y, q.z = (fx(op["u"][0], lat.x_min_, lat.x_max_), fx(op["u"][1], lat.y_min_, lat.y_max_),
+                                 fx(op["u"][2], lat.z_min_, lat.z_max_))
+                q.E, q.charge, q.baryon_number, q.strangeness = op["v"], 1, 1, 1
+                sig = 0.5 * min(lat.spacing_x_, lat.spacing_y_, lat.spacing_z_)
+                with np.errstate(all="ignore"):
+                    lat.add_particle_data([q], sig, op["quantity"], add=op["add"])
+            elif name == "add_same_spaced_grid":
+                other = Lattice3D(lat.x_min_, lat.x_max_, lat.y_min_, lat.y_max_, lat.z_min_, lat.z_max_, sh[0], sh[1], sh[2])
+                other.grid_ = _pattern_grid(sh, op["co"])
+                lat.add_same_spaced_grid(other, 0.0, 0.0, 0.0)
+            elif name == "assign_arith":  # lattice arithmetic, result put in place of the old contents
+                other = Lattice3D(lat.x_min_, lat.x_max_, lat.y_min_, lat.y_max_, lat.z_min_, lat.z_max_, sh[0], sh[1], sh[2])
+                other.grid_ = _pattern_grid(sh, op["co"])
+                res = {"+": lat + other, "-": lat - other, "*": lat * other}[op["sym"]]
+                lat.grid_ = res.grid_
+            elif name == "grid_iadd":
+                lat.grid_ += _pattern_grid(sh, op["co"])
+            else:
+                return False
+            return True
+        # particle container
+        n = len(data)
+        if name == "p_set":
+            if n == 0:
+                return False
+            setattr(data[op["idx"] % n], op["attr"], op["value"])
+        elif name == "p_replace":
+            if n == 0:
+                return False
+            data[op["idx"] % n] = _particles([op["part"]])[0]
+        elif name == "p_reverse":
+            data[:] = data[::-1]
+        elif name == "p_append":
+            if not isinstance(data, list):
+                return False
+            data.append(_particles([op["part"]])[0])
+        elif name == "p_pop":
+            if not isinstance(data, list) or n <= 1:
+                return False
+            data.pop(op["idx"] % n)
+        else:
+            return False
+        return True
+    except Exception:
+        return True  # whatever the call changed before raising is read back from the live object
+
+
+def _agree(a, b, tol):
+    if a[0] != b[0]:
+        return False
+    if a[0] == "err":
+        return a[1] == b[1]
+    return cclose(a[1], b[1], tol)
+
+
+def run_session(session, record=None):
+    """Run a history on ONE EventCharacteristics object.  After every compute the result is compared with the
+    formula on the current content and with a fresh object on the same live data.
+    Returns None or (key, what, detail).  With `record` (a list) nothing is judged: every compute is appended as
+    (step, n, m, wq, content, result) for the comparison with the model."""
+    from sparkx.EventCharacteristics import EventCharacteristics
+    data = _build(session["init"])
+    ec = EventCharacteristics(data)
+    since = []  # ops applied since the previous compute on this object
+    for step, op in enumerate(session["ops"]):
+        name = op["op"]
+        if name == "set_event_data":
+            if op.get("data") is not None:
+                data = _build(op["data"])
+            ec.set_event_data(data)
+            since.append(name)
+            continue
+        if name != "compute":
+            if _apply(data, op):
+                since.append(name)
+            continue
+        n, m, wq = op["n"], op["m"], op["wq"]
+        lat = _is_lattice(data)
+
+        def call(obj):
+            if op.get("via") == "direct":
+                return obj.eccentricity_from_lattice(n, m) if lat else obj.eccentricity_from_particles(n, m, wq)
+            return obj.eccentricity(n, m, wq)
+        real = _canon(lambda: call(ec))
+        content = _content(data)
+        if record is not None:
+            record.append((step, n, m, wq, content, real))
+            since = []
+            continue
+        fresh = _canon(lambda: call(EventCharacteristics(data)))
+        k = radial_power(n, m)
+        ref, cond = ref_ecc(_content_pts(content, wq), n, k)
+        kind = "lattice" if lat else "particles"
+        scale = cond if math.isfinite(cond) and cond <= 1e4 else max([1.0] + [abs(r[1]) for r in (real, fresh) if r[0] == "ok"])
+        tol = 1e-9 * max(1.0, scale)
+        detail = dict(step=step, call=dict(n=n, m=m, weight_quantity=wq, via=op.get("via", "eccentricity")),
+                      same_object=str(real), fresh_object=str(fresh), formula_on_current_content=str(ref),
+                      ops_since_previous_call=list(since), content=content)
+        if not _agree(real, fresh, tol):
+            last = since[-1] if since else "compute"
+            return (f"instance-reuse-{kind}-after-{last}",
+                    f"step {step}: eccentricity({n},{m},{wq!r}) on the long-lived object gives {real}, a fresh "
+                    f"EventCharacteristics on the same {kind} data gives {fresh} (formula on the current content: {ref!r}); "
+                    f"ops since the previous call on this object: {since or ['(none)']}", detail)
+        if ref is not None and cond <= 1e4 and not _agree(real, ("ok", ref), tol):
+            mk = "m-given" if m is not None else ("m-default-n1" if n == 1 else "m-default")
+            key = "formula:lattice" if lat else f"formula:particles:{wq}:{mk}"
+            return (key, f"step {step}: eccentricity({n},{m},{wq!r}) = {real} but the formula on the current content gives {ref!r} "
+                         f"(fresh object: {fresh})", detail)
+        since = []
+    return None
+
+
+def gen_spec(rng, kind=None):
+    kind = kind or rng.choice(["particles", "lattice"])
+    if kind == "particles":
+        return dict(kind="particles", particles=gen_parts(rng, 2, 7, positive=rng.random() < 0.7),
+                    container="ndarray" if rng.random() < 0.2 else "list")
+    ext, shape, grid = gen_lattice(rng, nonneg=rng.random() < 0.8)
+    if rng.random() < 0.6:
+        shape = [max(2, v) for v in shape]
+        grid = [[[rng.uniform(0.0, 5.0) for _ in range(shape[2])] for _ in range(shape[1])] for _ in range(shape[0])]
+    return dict(kind="lattice", extent=ext, shape=shape, grid=grid)
+
+
+def gen_compute(rng):
+    n, m = gen_nm(rng)
+    return dict(op="compute", n=n, m=m, wq=rng.choice(WQS), via="direct" if rng.random() < 0.2 else "eccentricity")
+
+
+def gen_mutation(rng, kind):
+    if kind == "lattice":
+        name = rng.choice(["reset", "set_value_by_index", "set_value_by_index", "set_value_nearest_neighbor", "set_value",
+                           "rescale", "add_particle_data", "add_same_spaced_grid", "assign_arith", "grid_iadd"])
+        u = [rng.random(), rng.random(), rng.random()]
+        co = [rng.randint(0, 8) / 4.0, rng.randint(0, 4) / 4.0, rng.randint(0, 4) / 4.0, rng.randint(0, 4) / 4.0]
+        if name == "reset":
+            return dict(op=name)
+        if name == "set_value_by_index":
+            return dict(op=name, i=rng.randint(0, 4), j=rng.randint(0, 4), k=rng.randint(0, 2), v=rng.randint(1, 40) / 4.0)
+        if name in ("set_value_nearest_neighbor", "set_value"):
+            return dict(op=name, u=u, v=rng.randint(1, 40) / 4.0)
+        if name == "rescale":
+            return dict(op=name, f=rng.choice([0.0, 0.5, 2.0, 3.0]))
+        if name == "add_particle_data":
+            return dict(op=name, u=[0.25 + 0.5 * t for t in u], v=rng.uniform(0.5, 5.0),
+                        quantity=rng.choice(["energy_density", "number_density"]), add=rng.random() < 0.5)
+        if name == "assign_arith":
+            return dict(op=name, sym=rng.choice(["+", "-", "*"]), co=co)
+        return dict(op=name, co=co)
+    name = rng.choice(["p_set", "p_set", "p_set", "p_replace", "p_reverse", "p_append", "p_pop"])
+    if name == "p_set":
+        attr = rng.choice(P_ATTRS)
+        value = (rng.uniform(-5, 5) if attr in ("x", "y") else rng.uniform(0.1, 10.0) if attr == "E"
+                 else float(rng.choice([1, 2, 3])))
+        return dict(op=name, idx=rng.randint(0, 9), attr=attr, value=value)
+    if name in ("p_replace", "p_append"):
+        return dict(op=name, idx=rng.randint(0, 9), part=gen_parts(rng, 1, 1, positive=True)[0])
+    return dict(op=name, idx=rng.randint(0, 9))
+
+
+def gen_session(rng):
+    init = gen_spec(rng)
+    kind = init["kind"]
+    ops = []
+    for _ in range(rng.randint(2, 4)):
+        ops += [gen_compute(rng) for _ in range(rng.randint(1, 2))]
+        r = rng.random()
+        if r < 0.2:
+            spec = gen_spec(rng)
+            kind = spec["kind"]
+            ops.append(dict(op="set_event_data", data=spec))
+        elif r < 0.27:
+            ops.append(dict(op="set_event_data", data=None))  # hand the same object in again
+        else:
+            ops += [gen_mutation(rng, kind) for _ in range(rng.randint(1, 3))]
+    ops.append(gen_compute(rng))
+    return dict(kind="session", init=init, ops=ops)
+
+
+def shrink_session(session, key):
+    """delta-debugging on the history (ops, then the particles of the initial / swapped-in lists); a candidate is
+    kept when it still fails in the same class (same key up to the name of the last op)."""
+    cls = key.rsplit("-after-", 1)[0]
+
+    def fails(s):
+        r = run_session(s)
+        return r is not None and r[0].rsplit("-after-", 1)[0] == cls
+    cur = json.loads(json.dumps(session))
+    r = run_session(cur)
+    if r and "step" in r[2]:
+        cur["ops"] = cur["ops"][:r[2]["step"] + 1]
+    changed = True
+    while changed:
+        changed = False
+        for i in range(len(cur["ops"]) - 1, -1, -1):
+            cand = dict(cur, ops=cur["ops"][:i] + cur["ops"][i + 1:])
+            if cand["ops"] and fails(cand):
+                cur = cand
+                changed = True
+        specs = [cur["init"]] + [o["data"] for o in cur["ops"] if o["op"] == "set_event_data" and o.get("data")]
+        for spec in specs:
+            if spec["kind"] != "particles":
+                continue
+            i = 0
+            while len(spec["particles"]) > 1 and i < len(spec["particles"]):
+                removed = spec["particles"].pop(i)
+                if fails(cur):
+                    changed = True
+                else:
+                    spec["particles"].insert(i, removed)
+                    i += 1
+    return cur
+
+
 # ------------------------------------------------------------------ correspondence (tie C)
 def correspond(ctx):
     rng = ctx.rng
@@ -259,7 +550,11 @@ def correspond(ctx):
                 "overall scales 1e-3..1e3, weights energy|number|charge|baryon|strangeness incl. zero, negative and exactly "
                 "cancelling ones, unknown weight names), n in 1..6 plus invalid n<1, m omitted | 1..6 | invalid m<1; lattices up "
                 "to 5x5x3 with symmetric / one-sided axes, non-negative and signed densities.  non-trivial = a value is "
-                "returned from >=2 particles (or nodes) off the origin; distinct by canonical input")
+                "returned from >=2 particles (or nodes) off the origin; distinct by canonical input.  Sessions: one long-lived "
+                "EventCharacteristics object, histories of compute / in-place mutation of the held Lattice3D (reset, set_value*, "
+                "rescale, add_particle_data, add_same_spaced_grid, arithmetic result assigned, grid_ +=) or particle list "
+                "(setters, replace, append, pop, reverse; list and ndarray containers) / set_event_data switching the input, "
+                "(n, m, weight_quantity) varying per call; every call compared on the content held at that moment")
     ctx.assumptions.append("C18: np.arctan2/np.cos/np.sin/float ** are compared with C libm atan2/cos/sin/pow at 1e-9 "
                            "(times the condition number sum|a|/|sum a|); theorems use exact real functions")
     ctx.assumptions.append("C18: particles with unset (NaN) attributes are outside the property and not generated")
@@ -281,7 +576,7 @@ def correspond(ctx):
             plist = _particles(parts)
             seen = _seen(plist)
             lines.append(line_particles(n, m, wq, seen))
-            meta.append(("p", n, m, wq, parts, seen, neutral))
+            meta.append(("p", n, m, wq, parts, seen, neutral, None))
         else:
             ext, shape, grid = gen_lattice(rng)
             if rng.random() < 0.05:
@@ -292,12 +587,26 @@ def correspond(ctx):
             ys = [float(v) for v in lat.y_values_]
             g = lat.grid_.tolist()
             lines.append(line_lattice(n, m, xs, ys, shape[2], g))
-            meta.append(("l", n, m, None, (ext, shape, grid), (xs, ys, g), False))
+            meta.append(("l", n, m, None, (ext, shape, grid), (xs, ys, g), False, None))
+    # sessions: every call of a long-lived object is compared with the model on the content held at that moment
+    for si in range(ctx.n(60, 1500)):
+        session = gen_session(rng)
+        rec = []
+        run_session(session, record=rec)
+        for step, n, m, wq, content, real in rec:
+            where = dict(session=session, step=step)
+            if content[0] == "p":
+                lines.append(line_particles(n, m, wq, content[1]))
+                meta.append(("p", n, m, wq, content[1], content[1], False, (real, where)))
+            else:
+                _, xs, ys, nz, g = content
+                lines.append(line_lattice(n, m, xs, ys, nz, g))
+                meta.append(("l", n, m, None, (None, [len(xs), len(ys), nz], g), (xs, ys, g), False, (real, where)))
     outs = common.run_driver("C18", lines)
-    for (kind, n, m, wq, inp, seen, neutral), out in zip(meta, outs):
+    for (kind, n, m, wq, inp, seen, neutral, pre), out in zip(meta, outs):
         model = parse_model(out)
         if kind == "p":
-            real = real_particles(inp, n, m, wq)
+            real = pre[0] if pre else real_particles(inp, n, m, wq)
             k = radial_power(max(n, 1), m if (m is None or m >= 1) else 1)
             pts = [(1.0 if wq == "number" else p[WIDX.get(wq, 0)], p[4], p[5]) for p in seen]
             _, cond = ref_ecc(pts, max(n, 1), k)
@@ -308,22 +617,25 @@ def correspond(ctx):
             tag = f"p/{wq if wq in WQS else 'unknown-wq'}/n={n if n >= 1 else '<1'}/m={'default' if m is None else ('given' if m >= 1 else '<1')}/{real[0]}{':' + real[1] if real[0] == 'err' else ''}"
         else:
             ext, shape, grid = inp
-            real = real_lattice(ext, shape, grid, n, m)
+            real = pre[0] if pre else real_lattice(ext, shape, grid, n, m)
             xs, ys, g = seen
             pts = [(g[i][j][l], xs[i], ys[j]) for i in range(shape[0]) for j in range(shape[1]) for l in range(shape[2])]
             _, cond = ref_ecc(pts, max(n, 1), radial_power(max(n, 1), m if (m is None or m >= 1) else 1))
             off = sum(1 for p in pts if (p[1] != 0.0 or p[2] != 0.0) and p[0] != 0.0)
             nontriv = real[0] == "ok" and off >= 2
-            canon = ("l", n, m, tuple(ext), tuple(shape), repr(grid))
+            canon = ("l", n, m, tuple(xs), tuple(ys), repr(grid))
             sample = dict(op="lattice", n=n, m=m, extent=ext, shape=shape, grid=grid, code=str(real), model=out)
             tag = f"l/shape={'x'.join(map(str, shape))}/{real[0]}{':' + real[1] if real[0] == 'err' else ''}"
+        if pre:
+            sample = dict(sample, op="session/" + sample["op"], step=pre[1]["step"], session=pre[1]["session"])
+            tag = "session/" + tag
         allzero = all(w == 0.0 or (x == 0.0 and y == 0.0) for w, x, y in pts)  # every amplitude is exactly 0
         neutral = neutral or (allzero and not (kind == "p" and wq not in WQS))
         verdict = same(real, model, cond, exact_zero=neutral)
         if verdict == "ill":
             ctx.count("ill-conditioned (sum|a|/|sum a| > 1e6, outcome not compared)")
             continue
-        ctx.case(canon, nontriv, sample=sample if nontriv else None)
+        ctx.case(canon, nontriv, sample=sample if (nontriv and not pre) else None)
         ctx.count(tag + ("/exact-zero-norm" if neutral else ""))
         in_domain = n >= 1 and (m is None or m >= 1) and (kind == "l" or wq in WQS) and not neutral
         if not verdict and not in_domain:
@@ -449,10 +761,14 @@ def check_lattice(case):
 
 
 def check_case(case):
+    if case["kind"] == "session":
+        return run_session(case)
     return check_particles(case) if case["kind"] == "particles" else check_lattice(case)
 
 
 def gen_case(rng):
+    if rng.random() < 0.2:
+        return gen_session(rng)
     if rng.random() < 0.75:
         positive = rng.random() < 0.5
         parts = gen_parts(rng, 2, 10, positive=positive)
@@ -471,6 +787,8 @@ def gen_case(rng):
 
 
 def shrink(case, key):
+    if case["kind"] == "session":
+        return shrink_session(case, key)
     if case["kind"] != "particles":
         return case
     cur = dict(case)
@@ -512,7 +830,9 @@ def search(ctx, budget_s):
         n += 1
         ctx.case(("oracle", json.dumps(case, sort_keys=True)), True)
         ctx.count("oracle/" + case["kind"])
-        if r and r[0] not in found:
+        if case["kind"] == "session":
+            ctx.count("oracle/session-ops", len(case["ops"]))
+        if r and r[0] not in found and not (r[0].startswith("instance-reuse-") and any(f.startswith("instance-reuse-") for f in found)):
             small = shrink(case, r[0])
             r2 = check_case(small) or r
             found.add(r2[0])
